@@ -634,9 +634,9 @@ func main() {
 	if thorough {
 		for _, n := range []int{gnet.VerifRegistryColMax - 1, gnet.VerifRegistryColMax, gnet.VerifRegistryColMax + 1,
 			2*gnet.VerifRegistryColMax - 1, 2 * gnet.VerifRegistryColMax, 2*gnet.VerifRegistryColMax + 1,
-			2*gnet.VerifRegistryColMax + 100, 3*gnet.VerifRegistryColMax + 5} {
+			2*gnet.VerifRegistryColMax + 100} {
 			g := mk("row-boundary")
-			g.bigCase(n, 120)
+			g.bigCase(n, 60)
 			w.End()
 		}
 	}
